@@ -119,8 +119,9 @@ def r_stats_and_arms(F, R, cat=None):
         if b.self_adt != HC:
             continue
         ctx, effs = cat.effects(b)
-        if any(e.tag == ("Push", "push") and (None, ()) in self_field_targets(e, ctx) for e in effs):
-            continue
+        fwd = any(e.tag == ("Push", "push") and (None, ()) in self_field_targets(e, ctx) for e in effs)
+        if fwd and len(ctx.org.local(0)) <= 1:
+            continue  # purely forwarding form (R-FORWARD)
         n += 1
         R.saw(b)
         item = ("place", b.key, ("arg", 2), ())
@@ -150,11 +151,14 @@ def r_stats_and_arms(F, R, cat=None):
             sinks.append(("raw", mentions(a, item), show(a)[:60]))
         ok_sinks = bool(sinks) and all(s[1] for s in sinks)
         kinds = {s[0] for s in sinks}
-        R.check("R-HUFF-ARMS", b.label(), ok_stats and ok_inc and ok_sinks and kinds == {"encoded", "raw"},
+        if fwd:
+            kinds = kinds | {"forwarded-arm"}
+        full = kinds >= {"encoded", "raw"}
+        R.check("R-HUFF-ARMS", b.label(), ok_stats and ok_inc and ok_sinks and full,
                 construct="each pushed symbol is counted once and stored in the active representation",
                 where=b.where(),
                 detail="%d stats entry sites (+1 each: %s); sinks %s" % (len(entries), ok_inc, sinks))
-    R.floor("R-HUFF-ARMS", "canonical Huffman push impls", n, 2)
+    R.floor("R-HUFF-ARMS", "canonical Huffman push impls", n, 1)
 
 
 def is_plus_one(t):
